@@ -255,8 +255,8 @@ func b1(w *World, r *Report) {
 				return true
 			}
 			for _, c := range CallsIn(caller) {
-				for _, a := range w.ledgerArms(c) {
-					if a.Method == "DelFinality" && len(c.Common().Args) > 0 && w.Canon(c.Common().Args[len(c.Common().Args)-1]) == rc+".Key()" && instrReaches(site, c) {
+				for _, a := range w.ledgerArmsF(c) {
+					if it := w.ledgerItemArg(c); a.Method == "DelFinality" && it != nil && w.Canon(it) == rc+".Key()" && instrReaches(site, c) {
 						if w.postDominatesWithinIteration(c, site) {
 							return true
 						}
@@ -406,7 +406,7 @@ func (w *World) frozenSink() *sinkSpec {
 	}
 	return &sinkSpec{
 		isSink: func(c ssa.CallInstruction, arg int) bool {
-			return arg == len(c.Common().Args)-1 && isFrozenArms(w.ledgerArms(c))
+			return arg == w.ledgerItemArgIndex(c) && isFrozenArms(w.ledgerArmsF(c))
 		},
 		isSinkFunc: func(v ssa.Value) bool {
 			// every value the function variable may hold is a frozen-ledger setter
@@ -479,6 +479,68 @@ func b2(w *World, r *Report) {
 			}
 		}
 		ok, why := false, "exeUnstaking does not find and remove the stake named by the payload"
+		// variant: the stake is found first (possibly in a helper) and removed by ITS hash:
+		// DelStake(s.TxHash) with s = FindStake(payload hash) on the same delegatee
+		if del != nil && find == nil {
+			_, da := callRecvArgs(del.Common())
+			dr, _ := callRecvArgs(del.Common())
+			var S ssa.Value
+			if len(da) == 1 {
+				if ld, isLd := stripConv(da[0]).(*ssa.UnOp); isLd && ld.Op == token.MUL {
+					if fa, isFA := ld.X.(*ssa.FieldAddr); isFA && fieldName(fa.X.Type(), fa.Field) == "TxHash" {
+						S = fa.X
+					}
+				}
+			}
+			foundByPayload := func(c string) bool {
+				return strings.HasPrefix(c, w.Canon(dr)+".FindStake(") && strings.HasSuffix(c, "TrxPayloadUnstaking).TxHash)#1")
+			}
+			if S != nil {
+				good := foundByPayload(w.Canon(S))
+				if !good {
+					var call *ssa.Call
+					idx := 0
+					switch y := stripConv(S).(type) {
+					case *ssa.Call:
+						call = y
+					case *ssa.Extract:
+						call, _ = y.Tuple.(*ssa.Call)
+						idx = y.Index
+					}
+					if call != nil {
+						if cal := call.Common().StaticCallee(); cal != nil && w.InModule(cal) && cal.Blocks != nil && len(cal.Params) == len(call.Common().Args) {
+							env := map[*ssa.Parameter]string{}
+							for j, p := range cal.Params {
+								env[p] = w.Canon(call.Common().Args[j])
+							}
+							w.inlineEnv = append(w.inlineEnv, env)
+							savedSh := w.shallowResolve
+							w.shallowResolve = true // the values as the helper writes them
+							vals, complete := w.returnedValues(cal, idx, func(ssa.Value) (bool, bool) { return false, false }, 1)
+							w.shallowResolve = savedSh
+							n := 0
+							good = complete
+							for _, x := range vals {
+								if c, isC := x.(*ssa.Const); isC && c.IsNil() {
+									continue // returned together with an error
+								}
+								n++
+								if !foundByPayload(w.Canon(x)) {
+									good = false
+								}
+							}
+							good = good && n > 0
+							w.inlineEnv = w.inlineEnv[:len(w.inlineEnv)-1]
+						}
+					}
+				}
+				if good {
+					ok, why = sunk(eu, S, del)
+				} else {
+					why = "the stake removed (" + w.canonCall(del.Common(), 0) + ") is not the stake found by the payload's hash on the same delegatee"
+				}
+			}
+		}
 		if del != nil && find != nil {
 			_, da := callRecvArgs(del.Common())
 			_, fa := callRecvArgs(find.Common())
@@ -735,7 +797,7 @@ func o2(w *World, r *Report) {
 		}
 		for _, c := range CallsIn(fn) {
 			isFrozenSet := false
-			for _, a := range w.ledgerArms(c) {
+			for _, a := range w.ledgerArmsF(c) {
 				if (a.Method == "Set" || a.Method == "SetFinality") && strings.HasSuffix(w.Canon(ledgerRoot(a.Recv)), ".frozenLedger") {
 					isFrozenSet = true
 				}
@@ -743,7 +805,10 @@ func o2(w *World, r *Report) {
 			if !isFrozenSet {
 				continue
 			}
-			arg := c.Common().Args[len(c.Common().Args)-1]
+			arg := w.ledgerItemArg(c)
+			if arg == nil {
+				continue
+			}
 			ok := false
 			for _, fs := range w.fieldStores(fn) {
 				if fs.Field.Name() == "RefundHeight" && w.Canon(fs.Addr.(*ssa.FieldAddr).X) == w.Canon(arg) && instrDominates(fs.In, c) {
@@ -1017,10 +1082,33 @@ func j1(w *World, r *Report) {
 	sb := needFn(r, "J-1", w, fref{pkgStake, "StakeCtrler", "BeginBlock"})
 	if sb != nil {
 		ok := false
-		for _, c := range w.callsTo(sb, fref{pkgStake, "StakeCtrler", "doPunish"}) {
-			_, a := callRecvArgs(c.Common())
-			if len(a) == 2 && w.Canon(a[1]) == "p0.GovHandler.SlashRatio()" && w.allocInitialisedFrom(a[0], evi) {
-				ok = true
+		// the loop may live in BeginBlock or in a helper it calls on every path
+		host, hc, outer := w.hostOfCall(sb, func(s string) bool { return strings.HasPrefix(s, "recv.doPunish(") }, 0)
+		if host != nil {
+			bound := false
+			if outer != nil {
+				cal := outer.Common().StaticCallee()
+				env := map[*ssa.Parameter]string{}
+				for j, p := range cal.Params {
+					env[p] = w.Canon(outer.Common().Args[j])
+				}
+				w.inlineEnv = append(w.inlineEnv, env)
+				bound = true
+				// the helper runs on every normal path of BeginBlock
+				for _, b := range sb.Blocks {
+					if ret, isR := lastInstr(b).(*ssa.Return); isR && b != sb.Recover && w.errState(ret) != triNonNil && !instrDominates(outer, ret) {
+						host = nil
+					}
+				}
+			}
+			if host != nil {
+				_, a := callRecvArgs(hc.Common())
+				if len(a) == 2 && w.Canon(a[1]) == "p0.GovHandler.SlashRatio()" && w.allocInitialisedFrom(a[0], evi) {
+					ok = true
+				}
+			}
+			if bound {
+				w.inlineEnv = w.inlineEnv[:len(w.inlineEnv)-1]
 			}
 		}
 		r.Check(ok, "J-1", "StakeCtrler.BeginBlock:evidence-loop", "doPunish runs once per evidence entry with the governance slash ratio", "the stake controller does not punish each evidence entry with the governance slash ratio", fnSite(w, sb))
